@@ -154,3 +154,58 @@ Proof.
   pose proof (commit_empty None (run_ops now w1 os) t' Hp) as [Hs _].
   rewrite Hs, run_ops_shared. unfold w1, step. rewrite Hc. reflexivity.
 Qed.
+
+(** ---- totality (C20): no call of the engine model yields the panic outcome.
+    Every Go slice expression and index on the modelled paths is either guarded
+    by the model's own range tests or total by the lemmas of ListFacts /
+    ZSetFacts (lrange_spec_elems: 0 <= s, e < len). ---- *)
+Lemma tx_put_no_panic t b k v ttl flag ts ds : snd (tx_put t b k v ttl flag ts ds) <> RPanic.
+Proof. unfold tx_put. destruct (tx_w t); cbn; [destruct k; cbn|]; discriminate. Qed.
+
+Lemma tx_put_all_no_panic vs : forall t b k flag ts ds, snd (tx_put_all t b k vs flag ts ds) <> RPanic.
+Proof.
+  induction vs as [|v r IH]; intros t b k flag ts ds; cbn; [discriminate|].
+  pose proof (tx_put_no_panic t b k v 0 flag ts ds) as H.
+  destruct (tx_put t b k v 0 flag ts ds) as [t' res]; cbn in H.
+  destruct res; try exact H; try discriminate. apply IH.
+Qed.
+
+Lemma ds_read_no_panic ix o r : ds_read ix o = Some r -> r <> RPanic.
+Proof.
+  destruct o; cbn; intros H; inversion H; subst; clear H; unfold lres_val, opt_list;
+  repeat match goal with
+  | |- context [match ?x with _ => _ end] => destruct x; cbn
+  | |- context [if ?x then _ else _] => destruct x; cbn
+  end; intro Hp; discriminate Hp.
+Qed.
+
+Lemma entries_res_no_panic w rs off : entries_res w rs off <> RPanic.
+Proof. unfold entries_res. destruct rs; [discriminate|]. destruct (items_of _ _ _); discriminate. Qed.
+
+Lemma do_op_no_panic now w t o : snd (do_op now w t o) <> RPanic.
+Proof.
+  unfold do_op. destruct (ds_read (w_ix w) o) as [r|] eqn:E; [cbn; eapply ds_read_no_panic; exact E|].
+  destruct o; cbn;
+  repeat match goal with
+  | |- context [tx_put_all ?t ?b ?k ?vs ?f ?ts ?ds] =>
+      let H := fresh in pose proof (tx_put_all_no_panic vs t b k f ts ds) as H;
+      destruct (tx_put_all t b k vs f ts ds) as [? ?]; cbn in H |- *
+  | |- context [tx_put ?t ?b ?k ?v ?ttl ?f ?ts ?ds] =>
+      let H := fresh in pose proof (tx_put_no_panic t b k v ttl f ts ds) as H;
+      destruct (tx_put t b k v ttl f ts ds) as [? ?]; cbn in H |- *
+  | |- context [match ?x with _ => _ end] => destruct x; cbn
+  | |- context [if ?x then _ else _] => destruct x; cbn
+  end; try discriminate; try assumption; apply entries_res_no_panic.
+Qed.
+
+Theorem step_no_panic now w c : snd (step now w c) <> RPanic.
+Proof.
+  destruct c; cbn; try discriminate.
+  - destruct (w_closed w); cbn; discriminate.
+  - destruct (w_tx w) as [|t|]; cbn; try discriminate.
+    pose proof (do_op_no_panic now w t o) as H. destruct (do_op now w t o) as [[w' t'] r]. exact H.
+  - destruct (w_tx w) as [|t|]; cbn; try discriminate.
+    destruct (do_commit None w t) as [w' ok]. destruct ok; discriminate.
+  - destruct (w_tx w); cbn; discriminate.
+  - destruct (w_closed w); cbn; discriminate.
+Qed.
